@@ -69,6 +69,9 @@ func c05Run(f []string) string {
 	if f[0] == "closeord" {
 		return c05CloseOrd(f)
 	}
+	if f[0] == "srccount" {
+		return c05SrcCount(f)
+	}
 	if f[0] == "strace" {
 		return c05SigTraceRun(f)
 	}
@@ -212,6 +215,7 @@ func c05Gen(r *Rand, tier string) []string {
 	out = append(out, c05SigGen(r, tier)...)
 	out = append(out, c05LoggerGen(r, tier)...)
 	out = append(out, c05CloseOrdGen(r, tier)...)
+	out = append(out, c05SrcCountGen(r, tier)...)
 	out = append(out, c05SigTraceGen(r, tier)...)
 	return append(out, aggTraceGen(r, tier)...)
 }
@@ -250,6 +254,11 @@ func c05Stats(cases []string) map[string]int {
 				st["strace.signalled"]++
 			}
 			st["strace.events.total"] = c05SigTraceEvents
+			continue
+		}
+		if f[0] == "srccount" {
+			st["srccount.cases"]++
+			st["srccount.status_samples.total"] = c05SrcCountSamples
 			continue
 		}
 		if f[0] == "closeord" {
